@@ -24,7 +24,7 @@ META = dict(
     bounds=dict(quick="p <= 3: every target y and every ordered regressor list S (int / list / range / array / empty styles); p = 4 with |S| <= 2; "
                       "monotonicity p <= 3; LGANM link p <= 3 (25 patterns x 4^p intervention assignments, tuple parameters)",
                 thorough="p = 4 all S; monotonicity p = 4 with |S| <= 1; LGANM link p = 4 with at most 2 intervened variables"),
-    outside=["floating-point rounding; singular regressor blocks", "repeated regressors in S", "p > 4"],
+    outside=["floating-point rounding; singular regressor blocks", "repeated regressors in S", "p > 4", "unsorted regressor lists of length >= 3 at p = 4"],
     stubs=["numpy -> symnp", "numpy.linalg.solve / inv -> exact adjugate/determinant contract stub"],
     assumptions=["z3 sound on QF_NRA"],
 )
@@ -91,7 +91,7 @@ def h_regress(ctx):
             cl.append(('a second regress() call returns a fresh coefficient array (not storage kept by the object)',
                        not np.shares_memory(c_again, coefs)))
             # order invariance
-            for perm in itertools.permutations(S):
+            for perm in (itertools.permutations(S) if ctx.params.get('perms', True) else ()):
                 if list(perm) != list(S):
                     cl.append(('mse invariant to the order of S', dist.mse(y, list(perm)) == m))
                     c2, i2 = dist.regress(y, list(perm))
@@ -220,6 +220,16 @@ def obligations(tier):
             c4.append(dict(p=4, y=y, S=S, style='list'))
     ob.append(Obligation('regress_p4', h_regress, c4, "regress / mse, p = 4" + (" with |S| <= 2" if tier == 'quick' else ""),
                          expect=('returned',), weight=6, timeout_ms=120000))
+    # unsorted regressor lists of length 3 at p = 3 (normal equations only; the all-permutations comparison is left to
+    # the cubes above).  The same lists at p = 4 were tried (after seeded change C06_r6) and withdrawn: with a fully
+    # symbolic 4 x 4 covariance the |S| = 4 queries end in solver timeouts (163 s wall, `unknown`), see DESIGN 11.5.
+    uns = []
+    for p in (3,):
+        for y in range(p):
+            for S in _lists(p, y):
+                if len(S) > 2 and list(S) != sorted(S):
+                    uns.append(dict(p=p, y=y, S=S, style='list', perms=False))
+    ob.append(Obligation('regress_unsorted', h_regress, uns, "regress / mse on unsorted regressor lists of length 3, p = 3", expect=('returned',), weight=6, timeout_ms=120000))
     mono = []
     for p in (2, 3) + ((4,) if tier == 'thorough' else ()):
         for y in range(p):
